@@ -13,6 +13,7 @@ import (
 
 	"verif/harness/internal/vf"
 
+	pkgerrors "github.com/pkg/errors"
 	"github.com/yandex/pandora/core"
 	"github.com/yandex/pandora/core/aggregator/netsample"
 	"github.com/yandex/pandora/core/warmup"
@@ -22,6 +23,36 @@ import (
 type InjectedError struct{ Where string }
 
 func (e *InjectedError) Error() string { return "injected fault: " + e.Where }
+
+// ownDeadlineError is a component failure whose cause is the component's OWN deadline (e.g. a flush that timed
+// out): the text carries the injected marker, Cause()/Unwrap() lead to context.DeadlineExceeded. The engine's
+// contexts in the harness are only ever cancelled, never expire, so this is not "the run's context error".
+type ownDeadlineError struct{ where string }
+
+func (e *ownDeadlineError) Error() string {
+	return "injected fault: " + e.where + ": flush timed out: " + context.DeadlineExceeded.Error()
+}
+func (e *ownDeadlineError) Cause() error  { return context.DeadlineExceeded }
+func (e *ownDeadlineError) Unwrap() error { return context.DeadlineExceeded }
+
+// shaped builds the error a faulty component returns: "" the bare sentinel, "wrapped" fmt %w, "pkg_wrapped"
+// pkg/errors.Wrap, "own_deadline" see ownDeadlineError.
+func shaped(shape, where string) error {
+	switch shape {
+	case "wrapped":
+		return fmt.Errorf("component failed: %w", &InjectedError{Where: where})
+	case "pkg_wrapped":
+		return pkgerrors.Wrap(&InjectedError{Where: where}, "component failed")
+	case "own_deadline":
+		return &ownDeadlineError{where: where}
+	}
+	return &InjectedError{Where: where}
+}
+
+// PanicMarkerInt is the value of an int-typed injected panic.
+const PanicMarkerInt = 7340033
+
+type panicStruct struct{ M string }
 
 // IsInjected reports whether err's chain (errors.Is/As, pkg/errors.Cause, fmt %w) holds an InjectedError for where.
 func IsInjected(err error, where string) bool {
@@ -69,7 +100,8 @@ type ProviderPlan struct {
 	AfterLast string `json:"after_last"` // "return" | "wait_ctx" (block until cancelled, then nil) | "wait_ctx_err" (then ctx.Err())
 	Fault     string `json:"fault"`      // "" | "before_first" | "after_k" | "at_end"
 	FaultK    int    `json:"fault_k"`
-	FaultUs   int    `json:"fault_delay_us"` // delay before the faulty return
+	FaultUs   int    `json:"fault_delay_us"`      // delay before the faulty return
+	ErrShape  string `json:"err_shape,omitempty"` // see shaped()
 	AcquireUs int    `json:"acquire_delay_us"`
 }
 
@@ -106,7 +138,7 @@ func (p *Provider) Run(ctx context.Context, _ core.ProviderDeps) (err error) {
 	fault := func(where string) error {
 		sleepUs(p.Plan.FaultUs)
 		p.FaultReached.Store(true)
-		return &InjectedError{Where: where}
+		return shaped(p.Plan.ErrShape, where)
 	}
 	if p.Plan.Fault == "before_first" {
 		return fault("provider")
@@ -207,6 +239,8 @@ type GunPlan struct {
 	Closer       bool  `json:"closer"`  // guns implement io.Closer
 	Reports      int   `json:"reports"` // samples reported per shot
 	FaultUs      int   `json:"fault_delay_us"`
+	// PanicKind: what the panicking shot panics with: "" *InjectedError | string | int | struct | bytes | runtime
+	PanicKind string `json:"panic_kind,omitempty"`
 }
 
 type ShotRec struct {
@@ -373,6 +407,19 @@ func (g *Gun) Shoot(ammo core.Ammo) {
 	}
 	if g.w.Plan.PanicAtShot >= 0 && idx == g.w.Plan.PanicAtShot {
 		g.w.reach("shot_panic")
+		switch g.w.Plan.PanicKind {
+		case "string":
+			panic("injected fault: shot_panic")
+		case "int":
+			panic(PanicMarkerInt)
+		case "struct":
+			panic(panicStruct{M: "injected fault: shot_panic"})
+		case "bytes":
+			panic([]byte("injected fault: shot_panic"))
+		case "runtime":
+			var m map[string]int
+			m["injected"] = 1 // runtime error: assignment to entry in nil map
+		}
 		panic(&InjectedError{Where: "shot_panic"})
 	}
 }
@@ -380,9 +427,10 @@ func (g *Gun) Shoot(ammo core.Ammo) {
 // ---------------- aggregator ----------------
 
 type AggPlan struct {
-	Fault   string `json:"fault"` // "" | "start" | "after_k" | "at_end"
-	FaultK  int    `json:"fault_k"`
-	FaultUs int    `json:"fault_delay_us"`
+	Fault    string `json:"fault"` // "" | "start" | "after_k" | "at_end"
+	FaultK   int    `json:"fault_k"`
+	FaultUs  int    `json:"fault_delay_us"`
+	ErrShape string `json:"err_shape,omitempty"` // see shaped()
 }
 
 type Aggregator struct {
@@ -418,7 +466,7 @@ func (a *Aggregator) Run(ctx context.Context, _ core.AggregatorDeps) (err error)
 	fault := func() error {
 		sleepUs(a.Plan.FaultUs)
 		a.FaultReached.Store(true)
-		return &InjectedError{Where: "aggregator"}
+		return shaped(a.Plan.ErrShape, "aggregator")
 	}
 	switch a.Plan.Fault {
 	case "start":
